@@ -120,7 +120,7 @@ def run(ctx):
                    "minmax": rng.choice(["min", "max"]), "seed": rng.randrange(1, 10 ** 6), "cfg": cfg_with_es(rng, name),
                    "mode": rng.choice(["serial", "serial", "serial", "thread"] if not ctx.thorough else ["serial", "serial", "thread", "process"]), "trace": False, "stream": "strict"}
             if job["mode"] != "serial":
-                job["workers"] = rng.choice([1, 2, 4])
+                job["workers"] = rng.choice([1, 2, 4, 16, 64])         # also more workers than agents
             if rng.random() < 0.25:
                 k = rng.choice([2, 3])
                 job["objective"], job["weights"] = f"multi{k}", [rng.choice([0.0, 0.5, 1.0, 2.0]) for _ in range(k)]
